@@ -748,6 +748,8 @@ func (sp *StreamParser) ExecCmd(cb RdbObjExecutor) {
 	// <listpack-length><stream-id><listpack>...<stream-id><listpack><active-len><last-id><group-length><group>...<group>
 	// list pack length
 	listpackLength := r.ReadLength64P()
+	hasFirstEntry := false
+	firstEntryMs, firstEntrySeq := uint64(0), uint64(0)
 	for i := uint64(0); i < listpackLength; i++ {
 		// Get the master ID, key : rdbSaveRawString(rdb,ri.key,ri.key_len)
 		key := r.ReadStringP()
@@ -832,6 +834,11 @@ func (sp *StreamParser) ExecCmd(cb RdbObjExecutor) {
 				deleted -= 1
 			} else {
 				count -= 1
+				if !hasFirstEntry {
+					// rdb.c : streamGetEdgeID(s,1,1,&s->first_id) for the encodings that do not store it
+					hasFirstEntry = true
+					firstEntryMs, firstEntrySeq = uint64(entryMs+masterMs), uint64(entrySeq+masterSeq)
+				}
 				panicIfErr(cb("XADD", args...))
 			}
 		}
@@ -875,6 +882,7 @@ func (sp *StreamParser) ExecCmd(cb RdbObjExecutor) {
 		entriesAdded = streamLength
 		maxDelEntryIdMs = 0
 		maxDelEntryIdSeq = 0
+		firstIdMs, firstIdSeq = firstEntryMs, firstEntrySeq
 	}
 
 	if util.VersionGE(sp.targetRedisVersion, "7", util.VersionMajor) {
@@ -903,27 +911,27 @@ func (sp *StreamParser) ExecCmd(cb RdbObjExecutor) {
 		xgcArgs = append(xgcArgs, cgID)
 
 		// redis7.0+ : entries_read
-		cgOffset := uint64(0)
 		if sp.rtype >= RDBTypeStreamListPacks2 {
-			cgOffset = r.ReadLength64P() // offset
+			cgOffset := r.ReadLength64P() // offset
 			if util.VersionGE(sp.targetRedisVersion, "7", util.VersionMajor) {
 				xgcArgs = append(xgcArgs, "ENTRIESREAD", cgOffset)
 			}
 		} else {
 			if util.VersionGE(sp.targetRedisVersion, "7", util.VersionMajor) {
-				cgOffset = func() uint64 {
-					SCG_INVALID_ENTRIES_READ := -1
+				// the counter is a long long in Redis, -1 (SCG_INVALID_ENTRIES_READ) means unknown
+				cgOffset := func() int64 {
+					SCG_INVALID_ENTRIES_READ := int64(-1)
 					if entriesAdded == 0 {
 						return 0
 					}
 					if streamLength == 0 && sp.streamCompareID(cgMs, cgSeq, lastMs, lastSeq) < 1 {
-						return entriesAdded
+						return int64(entriesAdded)
 					}
 					cmpLast := sp.streamCompareID(cgMs, cgSeq, lastMs, lastSeq)
 					if cmpLast == 0 {
-						return entriesAdded
+						return int64(entriesAdded)
 					} else if cmpLast > 0 {
-						return uint64(SCG_INVALID_ENTRIES_READ) //SCG_INVALID_ENTRIES_READ, The counter of a future ID is unknown
+						return SCG_INVALID_ENTRIES_READ // The counter of a future ID is unknown
 					}
 					cmpIdFirst := sp.streamCompareID(cgMs, cgSeq, firstIdMs, firstIdSeq)
 					cmpXdelFirst := sp.streamCompareID(maxDelEntryIdMs, maxDelEntryIdSeq, firstIdMs, firstIdSeq)
@@ -931,13 +939,13 @@ func (sp *StreamParser) ExecCmd(cb RdbObjExecutor) {
 						/* There's definitely no fragmentation ahead. */
 						if cmpIdFirst < 0 {
 							/* Return the estimated counter. */
-							return entriesAdded - streamLength
+							return int64(entriesAdded - streamLength)
 						} else if cmpIdFirst == 0 {
 							/* Return the exact counter of the first entry in the stream. */
-							return entriesAdded - streamLength + 1
+							return int64(entriesAdded-streamLength) + 1
 						}
 					}
-					return uint64(SCG_INVALID_ENTRIES_READ)
+					return SCG_INVALID_ENTRIES_READ
 				}()
 				xgcArgs = append(xgcArgs, "ENTRIESREAD", cgOffset)
 			}
